@@ -603,6 +603,38 @@ def _bounds_loaded(case, ctx, g):
     except Exception as e:
         ctx.fail("setter_roundtrip", f"in-bounds assignment {newv} rejected after loading bounds [{lo1}, {hi1}]: {type(e).__name__}: {str(e)[:100]}", "raise", cclass=case["cls"])
     check_invariant(ctx, dst, "load_state_dict with other bounds")
+    # default constraints are per object: loading other bounds into ONE default-constructed likelihood (or editing its bound
+    # buffer) leaves a sibling's - and a likelihood constructed afterwards - at the documented default
+    L = gpytorch.likelihoods
+    for mk_l in (lambda: L.GaussianLikelihood(), lambda: L.MultitaskGaussianLikelihood(num_tasks=2), lambda: K.ScaleKernel(K.RBFKernel())):
+        a_, b_ = mk_l(), mk_l()
+        donor = L.GaussianLikelihood(noise_constraint=C.GreaterThan(0.3)) if isinstance(a_, L.GaussianLikelihood) else None
+        cons_a = [c_ for _, c_ in a_.named_constraints()]
+        cons_b = [c_ for _, c_ in b_.named_constraints()]
+        ctx.expect("default_constraints_are_per_object", all(x is not y for x, y in zip(cons_a, cons_b)), f"two default-constructed {type(a_).__name__} objects share a constraint object")
+        before = [(c_.lower_bound.clone(), c_.upper_bound.clone()) for c_ in cons_b]
+        if donor is not None:
+            a_.load_state_dict(donor.state_dict())
+        for c_ in cons_a:
+            with torch.no_grad():
+                c_.lower_bound.fill_(0.77) if torch.isfinite(c_.lower_bound).all() else None
+        c_new = [c_ for _, c_ in mk_l().named_constraints()]
+        same = all(torch.equal(c_.lower_bound, lo_) and torch.equal(c_.upper_bound, hi_) for c_, (lo_, hi_) in zip(cons_b, before))
+        same_new = all(torch.equal(c_.lower_bound, lo_) and torch.equal(c_.upper_bound, hi_) for c_, (lo_, hi_) in zip(c_new, before))
+        ctx.expect("default_constraints_are_per_object", same and same_new, f"changing the bounds of one {type(a_).__name__}'s default constraint changed a sibling's / a later object's", cclass=type(a_).__name__)
+    # prior parameters are state too: a prior's density after load_state_dict is that of the LOADED parameters
+    import scipy.stats as st
+
+    P = gpytorch.priors
+    for name_, mkp, dens in (("LogNormalPrior", lambda a, b: P.LogNormalPrior(a, b), lambda a, b: st.lognorm(b, scale=float(torch.tensor(a).exp()))),
+                             ("GammaPrior", lambda a, b: P.GammaPrior(a + 1.5, b), lambda a, b: st.gamma(a + 1.5, scale=1 / b)),
+                             ("NormalPrior", lambda a, b: P.NormalPrior(a, b), lambda a, b: st.norm(a, b)),
+                             ("HalfCauchyPrior", lambda a, b: P.HalfCauchyPrior(b), lambda a, b: st.halfcauchy(scale=b))):
+        ks = K.RBFKernel(lengthscale_prior=mkp(0.3, 0.8))
+        kd = K.RBFKernel(lengthscale_prior=mkp(-0.4, 2.1))
+        kd.load_state_dict(ks.state_dict())
+        xv = torch.tensor([0.6, 1.7])
+        ctx.close("prior_log_prob", kd.lengthscale_prior.log_prob(xv), torch.tensor(dens(0.3, 0.8).logpdf(xv.numpy())), (1e-9, 1e-9), cls="prior_params_loaded:" + name_)
     ctx.cell({k: v for k, v in case.items() if k != "seed"})
 
 
